@@ -53,6 +53,17 @@ func main() {
 		}
 		return
 	}
+	if os.Getenv("LISPCHECK_DUMP_ACCEPTED") != "" {
+		w, err := loadWorld(*repo, false, "", nil)
+		if err != nil {
+			fmt.Println(err)
+			os.Exit(2)
+		}
+		for _, line := range acceptedKindsTable(w) {
+			fmt.Println(line)
+		}
+		return
+	}
 	if *dumpKinds {
 		w, err := loadWorld(*repo, false, "", nil)
 		if err != nil {
